@@ -133,12 +133,12 @@ func (x *runner) viol(kind, detail string, op string) {
 func (x *runner) inject(class string, raw []byte, guaranteed, mustPass bool) string {
 	aux, verdict, _ := x.analyse(raw)
 	op := fmt.Sprintf("pinput %s %s %s", class, hx.Hex(raw), aux)
-	before := kcp.VerifSessionSnapshot(x.recv)
+	before := stripEnc(kcp.VerifSessionSnapshot(x.recv))
 	c0 := memnet.ReadSnmp()
 	oob0 := x.oobs
 	pmsg := hx.Try(func() { kcp.VerifSessionPacketInput(x.recv, raw) })
 	d := memnet.ReadSnmp().Sub(c0)
-	after := kcp.VerifSessionSnapshot(x.recv)
+	after := stripEnc(kcp.VerifSessionSnapshot(x.recv))
 	var obs string
 	switch {
 	case pmsg != "":
@@ -184,6 +184,23 @@ func (x *runner) inject(class string, raw []byte, guaranteed, mustPass bool) str
 		x.viol("gate-rejected-valid", fmt.Sprintf("%s/%s: a datagram with a valid checksum was rejected (%s)", x.cfg.name, class, obs), op)
 	}
 	return obs
+}
+
+// stripEnc removes the FEC *encoder* line from a snapshot before comparison: the encoder belongs to
+// the session's post-processing goroutine, which runs asynchronously whenever an earlier, accepted
+// datagram made the core flush (e.g. the ACK "clocking" flush after 58 pending ACKs); it is
+// transmit-side state that the receive path can only reach through such a flush, and a flush
+// shows in the core fields (acklist, snd_buf) that ARE compared.
+func stripEnc(b []byte) []byte {
+	i := bytes.Index(b, []byte("\nenc "))
+	if i < 0 {
+		return b
+	}
+	j := bytes.IndexByte(b[i+1:], '\n')
+	if j < 0 {
+		return b[:i]
+	}
+	return append(append([]byte(nil), b[:i]...), b[i+1+j:]...)
 }
 
 func lenBucket(n int) string {
@@ -267,9 +284,9 @@ func (x *runner) corruptions(D []byte) {
 	samples := func(q, t int) int {
 		if quick {
 			if big {
-				return (q + 3) / 4
+				return q
 			}
-			return q
+			return 3 * q
 		}
 		if big {
 			return t / 2
@@ -464,6 +481,18 @@ func (x *runner) runConfig(c config) {
 	x.randomStrings()
 	for _, p := range pkts {
 		D := p.Data
+		if _, _, plain := x.analyse(D); len(plain) >= 6 {
+			switch binary.LittleEndian.Uint16(plain[4:]) {
+			case 0xf1:
+				x.o.Count("genuine-frame:fec-data")
+			case 0xf2:
+				x.o.Count("genuine-frame:fec-parity")
+			case 0xf3:
+				x.o.Count("genuine-frame:oob")
+			default:
+				x.o.Count("genuine-frame:raw-kcp")
+			}
+		}
 		x.corruptions(D) // before the genuine datagram: a leak would be new data for the core
 		x.inject("genuine", D, false, true)
 		x.inject("genuine-dup", D, false, true)
